@@ -45,6 +45,17 @@ pub fn cfg() -> FsxCfg {
     }
 }
 
+/// Generator configuration of the C04 fault stage: C04's volumes (multi-partition, tight, slack
+/// FAT entries) with short histories rich in reads, lookups and listings between the writes.
+pub fn cfg_c04() -> FsxCfg {
+    let base = fsx::cfg_for("C04");
+    FsxCfg {
+        profile: Profile { read: 16, find: 6, list: 6, write: 18, open: 16, close: 5, flush: 4, remount: 0, invalid_names: 0, weird_seeks: false, ..cfg().profile },
+        steps: (4, 16),
+        ..base
+    }
+}
+
 fn fail(code: &str, detail: String) -> Failure {
     Failure { sig: format!("C11/{}", code), detail }
 }
@@ -359,5 +370,132 @@ pub fn run_case(case: &Case, acc: &mut Acc, known: &[KnownFinding], verbose: boo
         s["fault_runs"] = json!(runs);
         acc.sample(s);
     }
+    Ok(())
+}
+
+/// C04 with the fault dimension: the write-log classifier of `engines::c04` applied to histories in
+/// which one device call fails (reads scribbled). Rule set per call, see `c04::Rules`:
+/// everything while the medium is consistent (before the fault, and after it when the faulted call
+/// was a read-only one), the reduced set for the faulted call itself, and the unconditional region
+/// rules once a mutating call was cut short.
+pub fn run_case_c04(cfg: &FsxCfg, case: &Case, acc: &mut Acc, verbose: bool, thorough: bool) -> Result<(), Failure> {
+    use crate::engines::c04::{self, Rules};
+    let mut steps: Vec<Step> = ops::prologue();
+    steps.extend(normalise(&case.steps));
+    // fault-free reference run: device-call range and kind of every step
+    let mut spans: Vec<(u64, u64, bool)> = Vec::new();
+    {
+        let mut it = Interp::new(case, Opts::default());
+        for (i, st) in steps.iter().enumerate() {
+            let d0 = it.disk.dev_calls();
+            let info = it.step(i, st);
+            if info.panicked.is_some() || !it.divs.is_empty() {
+                acc.desync += 1;
+                return Ok(());
+            }
+            spans.push((d0, it.disk.dev_calls(), read_only_kind(&info)));
+        }
+    }
+    // fault positions: up to 4 per read-only call, 2 per mutating call, thinned to a cap
+    let mut pos: Vec<u64> = Vec::new();
+    for (a, b, ro) in &spans {
+        let n = b - a;
+        if n == 0 {
+            continue;
+        }
+        let k = if *ro { 4 } else { 2 };
+        for j in 0..k.min(n) {
+            pos.push(a + j * n / k.min(n));
+        }
+    }
+    pos.dedup();
+    let cap = if thorough { 160 } else { 24 };
+    if pos.len() > cap {
+        let stride = (pos.len() + cap - 1) / cap;
+        pos = pos.into_iter().step_by(stride).collect();
+    }
+    let geom = fsx::geometry_class(case);
+    let mut runs = 0u64;
+    for p in pos {
+        runs += 1;
+        let mut it = Interp::new(case, Opts { faults: true, ..Opts::default() });
+        let ctx = fsx::make_ctx(cfg, &it);
+        let mut f = Faults { scribble: true, ..Faults::default() };
+        f.fail_at.insert(p);
+        it.disk.set_faults(f);
+        let mut consistent = true;
+        let mut fired_any = false;
+        let mut full_after_fault = 0u32;
+        for (i, st) in steps.iter().enumerate() {
+            let fired_before = it.disk.0.borrow().faults_fired.len();
+            let divs_before = it.divs.len();
+            let info = it.step(i, st);
+            if verbose {
+                println!("[fault at device call {}] {}", p, it.trace.last().cloned().unwrap_or_default());
+            }
+            if info.panicked.is_some() {
+                // a panic under a device fault is C11's finding, not a write-placement one
+                acc.class("c04-faults:run-ended-by-panic");
+                break;
+            }
+            let fired_now = it.disk.0.borrow().faults_fired.len() > fired_before;
+            let target_tainted = info.file_node.map(|n| it.nodes[n].tainted).unwrap_or(false)
+                || match (info.dir_node, info.name.as_ref()) {
+                    (Some(d), Some(n)) => it.is_uncertain(d, n),
+                    _ => false,
+                };
+            let rules = if fired_now {
+                Rules::FaultedCall
+            } else if !consistent {
+                Rules::RegionOnly
+            } else if target_tainted {
+                Rules::FaultedCall
+            } else {
+                Rules::Full
+            };
+            if !info.skipped {
+                if let Some(mut fl) = c04::check_call_with(&it, &ctx, &info, rules) {
+                    fl.detail = format!("with device call {} failing ({}): {} [rule set {:?}]", p, if fired_any || fired_now { "fault already fired" } else { "fault not yet fired" }, fl.detail, rules);
+                    if verbose {
+                        println!("FAIL {}: {}", fl.sig, fl.detail);
+                    }
+                    acc.evaluations += runs;
+                    return Err(fl);
+                }
+                if fired_any && rules == Rules::Full && info.log_end > info.log_start {
+                    full_after_fault += 1;
+                }
+            }
+            if fired_now {
+                fired_any = true;
+                acc.class(&format!("c04-faults:fault-in:{}", info.kind));
+                if let Some(n) = info.file_node {
+                    it.nodes[n].tainted = true;
+                }
+                if !read_only_kind(&info) {
+                    consistent = false;
+                    if matches!(info.kind, "Open" | "Delete" | "Mkdir") {
+                        if let (Some(d), Some(name)) = (info.dir_node, info.name.clone()) {
+                            it.mark_uncertain(d, &name);
+                        }
+                    }
+                }
+            }
+            if it.divs.len() > divs_before {
+                // the model lost track (after a fault that is expected): stop judging this run
+                acc.class("c04-faults:run-ended-by-divergence");
+                break;
+            }
+        }
+        if fired_any {
+            acc.class("c04-faults:runs-with-fault-fired");
+            if full_after_fault > 0 {
+                acc.class("c04-faults:writing-call-judged-by-full-rules-after-a-read-fault");
+                acc.shape(&("c04-faults", geom.clone(), case.steps.iter().map(|s| s.op.kind()).collect::<Vec<_>>(), p));
+            }
+        }
+    }
+    acc.evaluations += runs;
+    acc.class_n("c04-faults:fault-runs", runs);
     Ok(())
 }
